@@ -20,6 +20,9 @@ const (
 	File   DestKind = "file"  // W/f<i>, written with > or >>
 	Sink   DestKind = "sink"  // command "…catto:W/s<i>.out…": everything written to it ends up in that file
 	Relay  DestKind = "relay" // command "cat": relays what it is given to the SHARED standard output
+	// Stderr is the name "/dev/stderr" used as an output file: the bytes go to the error stream
+	// (whole lines only, each carrying a marker, so that they can be told from goawk's own messages).
+	Stderr DestKind = "stderr"
 )
 
 type Dest struct {
@@ -36,6 +39,8 @@ func (d Dest) Key() string {
 		return fmt.Sprintf("s%d", d.Idx)
 	case Relay:
 		return fmt.Sprintf("r%d", d.Idx)
+	case Stderr:
+		return "err"
 	}
 	return "out"
 }
@@ -67,6 +72,8 @@ const (
 	Exit       OpKind = "exit"
 	DivZero    OpKind = "divzero" // run-time error
 	Snap       OpKind = "snap"    // API only: the harness reads the destination's file NOW (native function)
+	// SetMode assigns OUTPUTMODE in the middle of the run (Form = "csv" | "tsv" | "none").
+	SetMode OpKind = "setmode"
 )
 
 // Print forms.
@@ -77,6 +84,17 @@ const (
 	FPrintfT  = "printfT"  // printf "%s<T>", x  → x T           (T = the destination's terminator)
 	FPrint0   = "print0"   // print              → $0 ORS        (main section only)
 	FPrintORS = "printORS" // ORS=T; print x; ORS="\n"           (relays: the terminator must stay in the alphabet)
+	// FPrint3Q: print a, q, b where q is a value that needs quoting in CSV/TSV output mode
+	// (an embedded double quote, a leading space, the separator).  Generated in CSV/TSV mode
+	// only: the row is a <sep> "q-quoted" <sep> b "\n".
+	FPrint3Q = "print3q"
+)
+
+// Output modes (OUTPUTMODE / Config.OutputMode / -o).
+const (
+	ModeNone = ""
+	ModeCSV  = "csv"
+	ModeTSV  = "tsv"
 )
 
 type Op struct {
@@ -87,6 +105,9 @@ type Op struct {
 	Seq    int    `json:"seq,omitempty"` // per-destination line counter (carried in the line)
 	Size   int    `json:"n,omitempty"`   // payload bytes (without terminator)
 	Status int    `json:"st,omitempty"`  // Exit / GetlineCmd status
+	// Name: a Print to Dest Stdout that goes through a redirection to a NAME of standard output:
+	// "/dev/stdout" or "-" (Redir is ">" or ">>"); empty for a plain print.
+	Name string `json:"name,omitempty"`
 }
 
 // History is one generated case: a linear operation sequence cut into BEGIN, per-record main
@@ -103,6 +124,14 @@ type History struct {
 	Relays []RelaySpec `json:"relays,omitempty"`
 	Pre    []string    `json:"pre,omitempty"` // destination keys whose file exists before the run (old content)
 	CLI    bool        `json:"cli,omitempty"` // rendered for the goawk binary (/bin/sh -c vsh …, results file instead of native functions)
+	// Mode is the output mode at the start of the run ("" | "csv" | "tsv"), ModeVia how it is
+	// set: "config" = Config.OutputMode (API) / -o (CLI), "begin" = BEGIN { OUTPUTMODE = "…" }.
+	// SetMode ops change it during the run.
+	Mode    string `json:"mode,omitempty"`
+	ModeVia string `json:"mode_via,omitempty"`
+	// CRLF: Config.NewlineOutput = CRLFNewlineMode (API) / -N crlf (CLI): every "\n" the program
+	// prints is delivered as "\r\n".
+	CRLF bool `json:"crlf,omitempty"`
 }
 
 // Params steer the generator.
@@ -117,6 +146,13 @@ type Params struct {
 	MaxSize  int  // largest single payload
 	Budget   int  // total payload bytes per history
 	Tiny     bool // all payloads small (race runs inside the harness process)
+	// CSV: the history runs (at least partly) in CSV or TSV output mode, with print statements of
+	// one or several arguments to several distinct destinations.  CRLF: newline output mode CRLF.
+	// Names: standard output is also written through its names "/dev/stdout" and "-", and
+	// "/dev/stderr" is used as an output file.
+	CSV   bool
+	CRLF  bool
+	Names bool
 }
 
 // blockOf returns (block id, section) of op index i: block 0 = BEGIN, 1..NRec = record, NRec+1 = END.
@@ -159,6 +195,7 @@ type genState struct {
 	open   map[string]string // key → redirect it was opened with
 	seq    map[string]int
 	budget int
+	mode   string // current output mode
 }
 
 func (g *genState) size() int {
@@ -195,6 +232,10 @@ func (g *genState) print(d Dest, inMain bool) Op {
 	switch d.Kind {
 	case Stdout:
 		op.Form = []string{FPrint1, FPrint1, FPrint2, FPrintf, FPrintfT}[g.rng.Intn(5)]
+		if g.p.Names && g.rng.Intn(5) == 0 {
+			op.Redir = []string{">", ">>"}[g.rng.Intn(2)]
+			op.Name = []string{"/dev/stdout", "/dev/stdout", "-"}[g.rng.Intn(3)]
+		}
 	case File:
 		op.Redir = []string{">", ">", ">>"}[g.rng.Intn(3)]
 		op.Form = []string{FPrint1, FPrint1, FPrint2, FPrintf, FPrintfT}[g.rng.Intn(5)]
@@ -204,14 +245,38 @@ func (g *genState) print(d Dest, inMain bool) Op {
 	case Relay:
 		op.Redir = "|"
 		op.Form = []string{FPrintf, FPrintfT, FPrintfT, FPrintORS}[g.rng.Intn(4)]
+		if g.mode != ModeNone && op.Form == FPrintORS {
+			op.Form = FPrintfT // print ignores ORS in CSV/TSV mode: the terminator would leave the relay's alphabet
+		}
+	case Stderr:
+		op.Redir = []string{">", ">>"}[g.rng.Intn(2)]
+		op.Form = []string{FPrint1, FPrint2, FPrintfT}[g.rng.Intn(3)] // whole lines only
+		if op.Size > 5000 {
+			op.Size = 1 + g.rng.Intn(5000)
+		}
 	}
-	if inMain && d.Kind != Relay && g.rng.Intn(8) == 0 {
+	// CSV/TSV output mode: most print statements are the ones the mode changes (print with
+	// arguments), every third with a value that needs quoting.
+	if g.mode != ModeNone && d.Kind != Relay {
+		switch g.rng.Intn(6) {
+		case 0, 1:
+			op.Form = FPrint2
+		case 2, 3:
+			op.Form = FPrint3Q
+		case 4:
+			op.Form = FPrint1
+		}
+	}
+	if inMain && d.Kind != Relay && d.Kind != Stderr && g.rng.Intn(8) == 0 {
 		op.Form, op.Size = FPrint0, 0
 	}
-	if op.Form == FPrint2 && op.Size < 2 {
+	if (op.Form == FPrint2 || op.Form == FPrint3Q) && op.Size < 2 {
 		op.Size = 2
 	}
-	if d.Kind != Stdout {
+	if d.Kind == Stderr && op.Size < 16 {
+		op.Size = 16 // the marker must be complete and inside the first print argument
+	}
+	if d.Kind != Stdout && d.Kind != Stderr {
 		if _, ok := g.open[k]; !ok {
 			g.open[k] = op.Redir
 		}
@@ -258,6 +323,9 @@ func (g *genState) allDests() []Dest {
 			l = append(l, Dest{Relay, i}, Dest{Relay, i})
 		}
 	}
+	if g.p.Names && !g.p.Fault {
+		l = append(l, Dest{Kind: Stderr})
+	}
 	return l
 }
 
@@ -269,6 +337,38 @@ func Generate(rng *rand.Rand, p Params) History {
 		g.budget = 3 << 20
 	}
 	h.NFiles = rng.Intn(4)
+	maxRelays := 2
+	var modes []string // the output modes this history may switch to
+	if p.CSV {
+		// several distinct destinations: that is where a row can go astray
+		if !p.Fault {
+			h.NFiles = 2 + rng.Intn(4)
+		}
+		switch rng.Intn(3) {
+		case 0:
+			h.Mode, modes = ModeCSV, []string{ModeCSV, ModeNone}
+		case 1:
+			h.Mode, modes = ModeTSV, []string{ModeTSV, ModeNone}
+		default:
+			h.Mode, modes = []string{ModeCSV, ModeTSV, ModeNone}[rng.Intn(3)], []string{ModeCSV, ModeTSV, ModeNone}
+		}
+		if h.Mode != ModeNone {
+			h.ModeVia = []string{"config", "config", "begin"}[rng.Intn(3)]
+		}
+		g.mode = h.Mode
+		for _, m := range modes {
+			if m == ModeCSV {
+				maxRelays = 1 // "," is the terminator of relay 1's alphabet: a CSV history has relay 0 only
+			}
+		}
+		if rng.Intn(3) != 0 {
+			modes = nil // two thirds keep one mode for the whole run
+		}
+		if h.Mode == ModeNone && modes == nil {
+			modes = []string{ModeCSV, ModeTSV, ModeNone}
+		}
+	}
+	h.CRLF = p.CRLF
 	if !p.Fault {
 		for i, n := 0, rng.Intn(3); i < n; i++ {
 			s := SinkSpec{Append: rng.Intn(3) == 0}
@@ -281,7 +381,7 @@ func Generate(rng *rand.Rand, p Params) History {
 			h.Sinks = append(h.Sinks, s)
 		}
 		if p.Children == "quiet" || p.Children == "exposed" {
-			for i, n := 0, 1+rng.Intn(2); i < n; i++ {
+			for i, n := 0, 1+rng.Intn(maxRelays); i < n; i++ {
 				r := RelaySpec{}
 				if rng.Intn(2) == 0 {
 					r.Exit = 1 + rng.Intn(100)
@@ -363,6 +463,19 @@ func Generate(rng *rand.Rand, p Params) History {
 		if p.Children == "quiet" && len(g.openKeys(Relay)) > 0 {
 			cands := append(g.openKeys(Relay), g.openKeys(File, Sink)...)
 			emit(g.print(cands[rng.Intn(len(cands))], false))
+			continue
+		}
+		if len(modes) > 0 && rng.Intn(10) == 0 {
+			// switch the output mode in the middle of the run
+			m := modes[rng.Intn(len(modes))]
+			if m == g.mode {
+				m = modes[(rng.Intn(len(modes))+1)%len(modes)]
+			}
+			g.mode = m
+			if m == ModeNone {
+				m = "none"
+			}
+			emit(Op{Kind: SetMode, Form: m})
 			continue
 		}
 		r := rng.Intn(100)
